@@ -1979,8 +1979,12 @@ handshake_edns0_check(int dns_fd)
 	return 0;
 }
 
-static void
+static int
 handshake_switch_codec(int dns_fd, int bits)
+/* Returns:
+   0: client and server use the same upstream codec afterwards
+   1: server never replied, its upstream codec is unknown
+*/
 {
 	char sw_codec[] = { 's', b32_5to8(userid), b32_5to8(bits), 0 };
 	char in[4096];
@@ -1996,7 +2000,7 @@ handshake_switch_codec(int dns_fd, int bits)
 		tempenc = &base64u_ops;
 	else if (bits == 7)
 		tempenc = &base128_ops;
-	else return;
+	else return 0;
 
 	fprintf(stderr, "Switching upstream to codec %s\n", tempenc->name);
 
@@ -2020,18 +2024,28 @@ handshake_switch_codec(int dns_fd, int bits)
 			in[read] = 0; /* zero terminate */
 			fprintf(stderr, "Server switched upstream to codec %s\n", in);
 			dataenc = tempenc;
-			return;
+			return 0;
 		}
 
 		fprintf(stderr, "Retrying codec switch...\n");
 	}
 	if (!running)
-		return;
+		return 0;
 
 	fprintf(stderr, "No reply from server on codec switch. ");
 
+	/* Our requests may have arrived and only the replies got lost: then
+	   the server has switched already. Make it return to Base32 too. */
+	if (tempenc != &base32_ops) {
+		fprintf(stderr, "Falling back to upstream codec Base32\n");
+		dataenc = &base32_ops;
+		return handshake_switch_codec(dns_fd, 5);
+	}
+	return 1;
+
 codec_revert:
 	fprintf(stderr, "Falling back to upstream codec %s\n", dataenc->name);
+	return 0;
 }
 
 static void
@@ -2393,15 +2407,20 @@ client_handshake(int dns_fd, int raw_mode, int autodetect_frag_size, int fragsiz
 		if (!running)
 			return -1;
 
+		r = 0;
 		if (upcodec == 1) {
-			handshake_switch_codec(dns_fd, 6);
+			r = handshake_switch_codec(dns_fd, 6);
 		} else if (upcodec == 2) {
-			handshake_switch_codec(dns_fd, 26);
+			r = handshake_switch_codec(dns_fd, 26);
 		} else if (upcodec == 3) {
-			handshake_switch_codec(dns_fd, 7);
+			r = handshake_switch_codec(dns_fd, 7);
 		}
 		if (!running)
 			return -1;
+		if (r) {
+			warnx("couldn't agree on an upstream codec with the server");
+			return r;
+		}
 
 		if (downenc == ' ') {
 			downenc = handshake_downenc_autodetect(dns_fd);
